@@ -66,6 +66,22 @@ func runEngineO5(p *Prog, o *obls) {
 					key = fmt.Sprintf("%s#%d", key, k)
 				}
 				c, why := storageOf(p, w.Call.Args[0], f, 0, map[ssa.Value]bool{})
+				if c == stFresh {
+					// a local header *value* that was filled by dereferencing the stored one (`header := *p.Header()`) is
+					// a shallow copy: its CSRC and Extensions slices are the stored header's — a writer that sets an
+					// extension on it writes into the buffered packet all the same
+					if al, ok := p.origin(w.Call.Args[0]).(*ssa.Alloc); ok {
+						for _, st := range p.storesInto(al) {
+							ld, ok := st.Val.(*ssa.UnOp)
+							if !ok || st.Addr != ssa.Value(al) || ld.Op.String() != "*" {
+								continue
+							}
+							if c2, why2 := storageOf(p, ld.X, f, 0, map[ssa.Value]bool{}); c2 == stPersistent {
+								c, why = stPersistent, "a shallow copy (`*h`) of "+strings.TrimSpace(why2)+": the copy's CSRC and extension slices are still the stored header's"
+							}
+						}
+					}
+				}
 				switch c {
 				case stPersistent:
 					o.bad("O5", key, p.instrPos(w), fmt.Sprintf("this function runs on a goroutine of its own per event (started at %s), and the header it passes downstream at %s is %s: two such goroutines hand the same header object to writers that may modify it (SetExtension), a data race on the buffered packet's header", multi[e], p.instrPos(w), strings.TrimSpace(why)))
